@@ -6,6 +6,7 @@ import (
 	"context"
 	"encoding/json"
 	"fmt"
+	"net/http/httptest"
 	"reflect"
 	"sort"
 	"strings"
@@ -68,6 +69,18 @@ type unexportedArg struct{ X int }
 func (t *ToyService) Hidden(a unexportedArg) error { t.Calls["Hidden"]++; return nil }
 
 // OtherService: names of another receiver must not leak.
+// BadService cannot be registered: one of its methods has a return layout the library does not
+// support. A refused registration must leave nothing of the object callable.
+type BadService struct{ Calls map[string]int }
+
+func (b *BadService) Alpha() error           { b.Calls["Alpha"]++; return nil }
+func (b *BadService) Beta() error            { b.Calls["Beta"]++; return nil }
+func (b *BadService) Gamma() (string, error) { b.Calls["Gamma"]++; return "", nil }
+func (b *BadService) Delta() error           { b.Calls["Delta"]++; return nil }
+func (b *BadService) Epsilon() error         { b.Calls["Epsilon"]++; return nil }
+func (b *BadService) Void()                  { b.Calls["Void"]++ }
+func (b *BadService) Two() (int, int)        { b.Calls["Two"]++; return 0, 0 }
+
 type OtherService struct{ Calls map[string]int }
 
 func (o *OtherService) Quux() error { o.Calls["Quux"]++; return nil }
@@ -148,6 +161,51 @@ func c16Toy() vh.Unit {
 					}
 					if !want && fmt.Sprint(calls) != before {
 						u.Violate("toy/unregistered-method-ran", fmt.Sprintf("Register(%q, allow=%v): calling %q ran a method: %v", prefix, allow, name, calls), nil)
+					}
+				}
+			}
+		}
+		// a registration that is refused (on a server that already serves another object, and on an
+		// empty one; with and without an allow-list naming the offending method): nothing of the
+		// refused object is callable afterwards, the other object still is
+		for _, withOther := range []bool{false, true} {
+			for _, allow := range [][]string{nil, {"alpha", "void"}, {"void"}, {"alpha", "beta", "gamma", "delta", "epsilon", "two"}} {
+				for rep := 0; rep < 6; rep++ { // (registration walks a map: several attempts)
+					calls := map[string]int{}
+					srv := &jsonrpc2.Server{}
+					if withOther {
+						if err := srv.Register("x_", &OtherService{Calls: calls}); err != nil {
+							u.Violate("toy/register-failed", err.Error(), nil)
+							continue
+						}
+					}
+					err := srv.Register("x_", &BadService{Calls: calls}, allow...)
+					u.R.Evaluations++
+					u.R.States++
+					u.R.Transitions++
+					u.R.Traces++
+					u.Observe(fmt.Sprintf("bad-service other=%v allow=%d refused=%v", withOther, len(allow), err != nil))
+					if err == nil {
+						continue // accepted as a whole (e.g. the allow-list left the offending methods out): not this case
+					}
+					for _, m := range []string{"alpha", "beta", "gamma", "delta", "epsilon", "void", "two"} {
+						msg, _ := vh.ParseMessage(fmt.Sprintf(`{"jsonrpc":"2.0","id":1,"method":"x_%s","params":[]}`, m))
+						var resp *jsonrpc2.Message
+						if p := vh.Recover(func() { resp = srv.Handle(context.Background(), msg) }); p != "" {
+							u.Violate("toy/panic", fmt.Sprintf("x_%s after a refused registration: %s", m, p), nil)
+							continue
+						}
+						if resp.Response == nil || resp.Error == nil || resp.Error.Code != jsonrpc2.ErrCodeMethodNotFound || len(calls) != 0 {
+							u.Violate("toy/refused-registration-left-methods-callable", fmt.Sprintf("Register(\"x_\", BadService, allow=%v) returned %q, yet x_%s answers %s (methods run: %v)", allow, err, m, vh.ShortJSON(resp), calls), nil)
+							break
+						}
+					}
+					if withOther {
+						msg, _ := vh.ParseMessage(`{"jsonrpc":"2.0","id":1,"method":"x_quux","params":[]}`)
+						if resp := srv.Handle(context.Background(), msg); resp.Response == nil || resp.Error != nil {
+							u.Violate("toy/registered-name-not-found", fmt.Sprintf("after a refused registration of another object, x_quux answers %s", vh.ShortJSON(resp)), nil)
+						}
+						delete(calls, "Quux")
 					}
 				}
 			}
@@ -324,6 +382,56 @@ func c16Params() vh.Unit {
 					u.Violate("toy/method-ran-on-bad-params", fmt.Sprintf("%s: the method needs %d arguments, none were given, and it ran", text, required), nil)
 				} else if code != jsonrpc2.ErrCodeInvalidParams {
 					u.Violate("toy/bad-params-not-rejected", fmt.Sprintf("%s answered code %d, expected -32602", text, code), nil)
+				}
+			}
+		}
+		// over the HTTP server, one request after another: what a request is judged on is its own
+		// content, whatever the previous request on that server carried
+		hs := &jsonrpc2.HTTPServer{}
+		if err := hs.Server.Register("", svc); err != nil {
+			u.Violate("toy/register-failed", err.Error(), nil)
+			return
+		}
+		post := func(body string) (int, string) {
+			rec := httptest.NewRecorder()
+			hs.ServeHTTP(rec, httptest.NewRequest("POST", "/", strings.NewReader(body)))
+			r, err := vh.DecodeReply(rec.Body.String())
+			if err != nil {
+				return -1, rec.Body.String()
+			}
+			return r.Code(), rec.Body.String()
+		}
+		valid := map[string]string{"foo": `["x",1]`, "opt": `["x",null]`, "obj": `[{"a":"x","b":2},["a"],1.5,true]`, "deep": `[1]`, "any": `["x",1]`, "ctxAny": `["x"]`}
+		for first, firstArgs := range valid {
+			for second := range valid {
+				for _, form := range c16ParamForms {
+					if code, body := post(fmt.Sprintf(`{"jsonrpc":"2.0","id":1,"method":%q,"params":%s}`, first, firstArgs)); code != 0 {
+						u.Violate("toy/good-params-not-served", fmt.Sprintf("over HTTP: %s(%s) answered %s", first, firstArgs, body), nil)
+						return
+					}
+					total := 0
+					for _, v := range calls {
+						total += v
+					}
+					req := fmt.Sprintf(`{"jsonrpc":"2.0","id":2,"method":%q%s}`, second, form)
+					code, body := post(req)
+					total2 := 0
+					for _, v := range calls {
+						total2 += v
+					}
+					u.R.Evaluations++
+					u.R.States++
+					u.R.Transitions += 2
+					u.R.Traces++
+					u.Observe(fmt.Sprintf("http-seq %s then %s %q -> %d", first, second, form, code))
+					if total2 != total {
+						u.Violate("toy/method-ran-on-bad-params", fmt.Sprintf("over HTTP, after %s(%s): %s ran a method", first, firstArgs, req), nil)
+						return
+					}
+					if code != jsonrpc2.ErrCodeInvalidParams {
+						u.Violate("toy/bad-params-not-rejected", fmt.Sprintf("over HTTP, after %s(%s): %s answered %s, expected -32602", first, firstArgs, req, body), nil)
+						return
+					}
 				}
 			}
 		}
